@@ -9,6 +9,7 @@
 package duo
 
 import (
+	"errors"
 	"fmt"
 	"io"
 	"os"
@@ -18,6 +19,7 @@ import (
 	"testing"
 	"time"
 
+	blocks "github.com/ipfs/go-block-format"
 	"github.com/ipfs/go-cid"
 	"github.com/ipld/go-ipld-prime"
 	cidlink "github.com/ipld/go-ipld-prime/linking/cid"
@@ -27,6 +29,7 @@ import (
 
 	"github.com/ipfs/go-graphsync"
 	gsimpl "github.com/ipfs/go-graphsync/impl"
+	gsmsg "github.com/ipfs/go-graphsync/message"
 
 	"verif/harness/dagen"
 	"verif/harness/scen"
@@ -45,10 +48,25 @@ type ReqSpec struct {
 }
 
 type Op struct {
-	K string `json:"k"` // start deliver qpause qunpause qcancel spause sunpause scancel sgate qgate tick
+	K string `json:"k"` // start deliver qpause qunpause qcancel spause sunpause scancel sgate qgate tick intrude
 	R int    `json:"r"`
 	N int    `json:"n,omitempty"`
+	X *Intr  `json:"x,omitempty"` // intrude: what the third peer sends to the requestor (delivered at once)
 }
+
+// Intr is one message from a third peer carrying responses under live request ids.
+type Intr struct {
+	Reqs    []int  `json:"reqs"`   // request indices whose ids are used (those already issued)
+	Status  int    `json:"status"` // response status code
+	Ext     string `json:"ext"`    // "", trigger/error, trigger/update, other
+	NMeta   int    `json:"n_meta"` // metadata entries (links of the DAG, action present)
+	NBlocks int    `json:"n_blocks"`
+}
+
+const (
+	ExtTriggerError  = "trigger/error"
+	ExtTriggerUpdate = "trigger/update"
+)
 
 type Case struct {
 	DAG     dagen.DAG   `json:"dag"`
@@ -112,6 +130,17 @@ type Result struct {
 	APIHung    []string // API calls that never returned
 	// RerequestWhileActive[i]: a re-sent New request for i (same id, after a requestor pause) was
 	// delivered while the responder still had the earlier response's task active
+	// RespHookPeers / BlockHookPeers: how often the requestor's response / block hooks were invoked, per peer argument
+	RespHookPeers  map[string]int
+	BlockHookPeers map[string]int
+	// ThirdHookLive: hook invocations with the third peer as sender for a request that the requestor still
+	// listed when the intruding message was delivered (a response for a request that has ended reaches the
+	// hooks whoever sends it, and cannot affect anything)
+	ThirdHookLive  int
+	SentToThirdLive int // messages the requestor sent to the third peer in reaction to such a message
+	Intrusions     int // intruding messages actually delivered
+	IntrudedLive   int // ... while one of the targeted requests was still listed by the requestor
+	IntrudedPaused int // ... while one of them was listed as paused
 	RerequestWhileActive map[int]bool
 	// CrossDedup[i]: a response for i listed a link as present without its bytes although the bytes had
 	// only ever been transmitted for another request (the responder's cross-request de-duplication)
@@ -188,7 +217,7 @@ func (o *ReqOutcome) Key() string {
 }
 
 func RunWith(t *testing.T, c Case, st *Stores) *Result {
-	res := &Result{CrossDedup: map[int]bool{}, AtRisk: map[int]bool{}, RerequestWhileActive: map[int]bool{}, Labels: map[string]bool{}, KeyStores: map[int]map[cid.Cid][]byte{}}
+	res := &Result{RespHookPeers: map[string]int{}, BlockHookPeers: map[string]int{}, CrossDedup: map[int]bool{}, AtRisk: map[int]bool{}, RerequestWhileActive: map[int]bool{}, Labels: map[string]bool{}, KeyStores: map[int]map[cid.Cid][]byte{}}
 	if !c.Sel.WellFormed() {
 		res.Skip = true
 		return res
@@ -292,8 +321,27 @@ func RunWith(t *testing.T, c Case, st *Stores) *Result {
 				mu.Unlock()
 			}
 		})
+		w.AddScripted(scen.ThirdID)
+		intrudeLive := map[graphsync.RequestID]bool{}
+		rq.GS.RegisterIncomingResponseHook(func(p peer.ID, rd graphsync.ResponseData, ha graphsync.IncomingResponseHookActions) {
+			mu.Lock()
+			res.RespHookPeers[string(p)]++
+			if p == scen.ThirdID && intrudeLive[rd.RequestID()] {
+				res.ThirdHookLive++
+			}
+			mu.Unlock()
+			if _, ok := rd.Extension(ExtTriggerError); ok {
+				ha.TerminateWithError(errors.New("response hook refuses this response"))
+			}
+			if _, ok := rd.Extension(ExtTriggerUpdate); ok {
+				ha.UpdateRequestWithExtensions(graphsync.ExtensionData{Name: "duo/update", Data: basicnode.NewString("from the response hook")})
+			}
+		})
 		blocksSeen := map[int]int{}
 		rq.GS.RegisterIncomingBlockHook(func(p peer.ID, rd graphsync.ResponseData, bd graphsync.BlockData, ha graphsync.IncomingBlockHookActions) {
+			mu.Lock()
+			res.BlockHookPeers[string(p)]++
+			mu.Unlock()
 			i, ok := getID(rd.RequestID())
 			if !ok {
 				return
@@ -531,7 +579,17 @@ func RunWith(t *testing.T, c Case, st *Stores) *Result {
 			case "start":
 				start(i)
 			case "deliver":
-				pl := w.Net.PendingLinks()
+				var pl [][2]peer.ID
+				for _, l := range w.Net.PendingLinks() {
+					// only the two real instances' links are scheduled by the script; whatever is addressed to the
+					// third (scripted) peer is handed over at once so that it cannot shift the schedule
+					if l[0] == scen.ThirdID || l[1] == scen.ThirdID {
+						for w.Net.Deliver(l[0], l[1]) != nil {
+						}
+						continue
+					}
+					pl = append(pl, l)
+				}
 				if len(pl) == 0 {
 					continue
 				}
@@ -564,6 +622,84 @@ func RunWith(t *testing.T, c Case, st *Stores) *Result {
 				case "cancel":
 					api(desc, func() error { return in.GS.Cancel(w.Ctx, id) })
 				}
+			case "intrude":
+				if op.X == nil {
+					continue
+				}
+				var rsps []gsmsg.GraphSyncResponse
+				live, paused := false, false
+				states := rq.Impl.PeerState(scen.RespID).OutgoingState.RequestStates
+				var md []gsmsg.GraphSyncLinkMetadatum
+				blks := []blocks.Block{}
+				for k := 0; k < op.X.NMeta && k < len(b.Order); k++ {
+					md = append(md, gsmsg.GraphSyncLinkMetadatum{Link: b.Order[len(b.Order)-1-k], Action: graphsync.LinkActionPresent})
+					if k < op.X.NBlocks {
+						if blk, err := blocks.NewBlockWithCid(b.Data[b.Order[len(b.Order)-1-k]], b.Order[len(b.Order)-1-k]); err == nil {
+							blks = append(blks, blk)
+						}
+					}
+				}
+				for _, ri := range op.X.Reqs {
+					ri = ri % len(c.Reqs)
+					if !res.Reqs[ri].HasID {
+						continue
+					}
+					id := res.Reqs[ri].ID
+					if st, ok := states[id]; ok {
+						live = true
+						mu.Lock()
+						intrudeLive[id] = true
+						mu.Unlock()
+						if st == graphsync.Paused {
+							paused = true
+						}
+					}
+					var exts []graphsync.ExtensionData
+					if op.X.Ext != "" {
+						exts = append(exts, graphsync.ExtensionData{Name: graphsync.ExtensionName(op.X.Ext), Data: basicnode.NewString("x")})
+					}
+					rsps = append(rsps, gsmsg.NewResponse(id, graphsync.ResponseStatusCode(op.X.Status), md, exts...))
+				}
+				if len(rsps) == 0 {
+					continue
+				}
+				bm := map[cid.Cid]blocks.Block{}
+				for _, blk := range blks {
+					bm[blk.Cid()] = blk
+				}
+				rm := map[graphsync.RequestID]gsmsg.GraphSyncResponse{}
+				for _, r := range rsps {
+					rm[r.RequestID()] = r
+				}
+				w.Net.Connect(scen.ThirdID, scen.ReqID)
+				if err := w.Net.Inject(scen.ThirdID, scen.ReqID, gsmsg.NewMessage(nil, rm, bm)); err != nil {
+					continue
+				}
+				sentBefore := len(w.Net.SentSince(0))
+				w.Net.Deliver(scen.ThirdID, scen.ReqID)
+				w.Wait()
+				mu.Lock()
+				for _, e := range w.Net.SentSince(sentBefore) {
+					if e.From == scen.ReqID && e.To == scen.ThirdID {
+						for _, q := range e.Msg.Requests() {
+							if intrudeLive[q.ID()] {
+								res.SentToThirdLive++
+							}
+						}
+					}
+				}
+				for k := range intrudeLive {
+					delete(intrudeLive, k)
+				}
+				mu.Unlock()
+				res.Intrusions++
+				if live {
+					res.IntrudedLive++
+				}
+				if paused {
+					res.IntrudedPaused++
+				}
+				desc = fmt.Sprintf("intrude(%v st=%d ext=%s)", op.X.Reqs, op.X.Status, op.X.Ext)
 			case "sgate":
 				sgates[i].release()
 			case "qgate":
